@@ -47,6 +47,26 @@ def check(run):
                 else:
                     ops.append(("M", G.gen_mm(rng, pools, p_present=0.9, tps=1000), None))
             sessions.append(refexp.make_session({"maj": 1, "min": 0, "priv": 1}, [bp], ops))
+    # hints edited in place through get_active_block_parameters_ref(), taking effect with the next output: the blocks of the new
+    # output must apply – and its preamble must state – the edited hints
+    def batch(n):
+        pools = G.Pools(rng)
+        o = []
+        for _ in range(n):
+            k = rng.random()
+            o.append(("Q", G.gen_qr(rng, pools, full=rng.random() < 0.8, tps=1000), None) if k < 0.6 else
+                     ("A", G.gen_aec(rng, pools), None) if k < 0.8 else ("M", G.gen_mm(rng, pools, p_present=0.9, tps=1000), None))
+        return o
+    for _ in range(200 if quick else 5000):
+        def mask():
+            return rng.choice([{"qrh": G.ALL_QRH, "sigh": G.ALL_SIGH, "rrh": 3, "odh": 3}, {"qrh": 0, "sigh": 0, "rrh": 0, "odh": 0},
+                               {"qrh": rng.randrange(2**18), "sigh": rng.randrange(2**17), "rrh": rng.randrange(4), "odh": rng.randrange(4)}])
+        bp = dict(tps=1000, max=rng.choice([1, 3, 100]), **mask())
+        ops = batch(rng.randrange(0, 4))
+        tgt = rng.choice(["fd", "nm"])
+        for _ in range(rng.randrange(1, 4)):
+            ops += [("EH", mask()), ("R", tgt, True)] + batch(rng.randrange(1, 5))
+        sessions.append(refexp.make_session({"maj": 1, "min": 0, "priv": 1}, [bp], ops, target=tgt))
     res = E.run_sessions(run, sessions)
     seen = set()
     for s, r in zip(sessions, res):
